@@ -95,9 +95,9 @@ ROWWISE_MISC = ["NgramCase", "SkipgramCase", "LZCase", "BPECase", "HistogramCase
 PLANS["C12"] = {
     "quick": [
         {"name": "H-interp-all", "layer": "H", "mode": "interp", "runs": 10500, "workers": 7, "budget_s": 170},
-        {"name": "H-interp-ot", "layer": "H", "mode": "interp", "variant": "ot", "runs": 1200, "workers": 2, "budget_s": 170,
+        {"name": "H-interp-ot", "layer": "H", "mode": "interp", "variant": "ot", "runs": 1000, "workers": 2, "budget_s": 170,
          "params": {"families": ["WassersteinCase"]}},
-        {"name": "H-interp-ot-2thr", "layer": "H", "mode": "interp", "variant": "ot2", "runs": 1200, "workers": 2, "budget_s": 170,
+        {"name": "H-interp-ot-2thr", "layer": "H", "mode": "interp", "variant": "ot2", "runs": 1000, "workers": 2, "budget_s": 170,
          "params": {"families": ["WassersteinCase"]}, "env": {"NUMBA_NUM_THREADS": 2}},
         {"name": "H-jit-ot", "layer": "H", "mode": "jit", "variant": "ot", "runs": 48, "workers": 2, "budget_s": 170,
          "params": {"families": ["WassersteinCase"]}, "env": {"NUMBA_NUM_THREADS": 4}},
